@@ -51,6 +51,27 @@ func getBase(options multiTag, base int) (int, error) {
 	return base, err
 }
 
+// getFormatBase returns the base used to render integers. Base 0 lets
+// strconv.ParseInt infer the base from the prefix when parsing, values are
+// then rendered in base 10; bases strconv cannot format are an error.
+func getFormatBase(options multiTag) (int, error) {
+	base, err := getBase(options, 10)
+
+	if err != nil {
+		return 0, err
+	}
+
+	if base == 0 {
+		base = 10
+	}
+
+	if base < 2 || base > 36 {
+		return 0, fmt.Errorf("invalid base %d", base)
+	}
+
+	return base, nil
+}
+
 func convertMarshal(val reflect.Value) (bool, string, error) {
 	// Check first for the Marshaler interface
 	if val.IsValid() && val.Type().NumMethod() > 0 && val.CanInterface() {
@@ -90,7 +111,7 @@ func convertToString(val reflect.Value, options multiTag) (string, error) {
 
 		return "false", nil
 	case reflect.Int, reflect.Int8, reflect.Int16, reflect.Int32, reflect.Int64:
-		base, err := getBase(options, 10)
+		base, err := getFormatBase(options)
 
 		if err != nil {
 			return "", err
@@ -98,7 +119,7 @@ func convertToString(val reflect.Value, options multiTag) (string, error) {
 
 		return strconv.FormatInt(val.Int(), base), nil
 	case reflect.Uint, reflect.Uint8, reflect.Uint16, reflect.Uint32, reflect.Uint64:
-		base, err := getBase(options, 10)
+		base, err := getFormatBase(options)
 
 		if err != nil {
 			return "", err
